@@ -108,3 +108,50 @@ func VF_C12_LockNames() {
 	vf.Reach("named")
 	vf.Assert(vf.Implies(a == b, vf.All(p1 == p2, n1 == n2, k1 == k2)), "C12 lock names are injective in (kind, collection number, key)")
 }
+
+// VF_C13_Race: two clients race SubscribeOrCreate for the same new key (each
+// with its own provisional DUID): exactly one datatype must exist for the key
+// afterwards and both requests must be answered.
+func VF_C13_Race() {
+	vf.Preemptions(2)
+	w := vfNewWorld()
+	w.seedCollection(vfCol, 1)
+	w.seedClient(vfCUIDx, 1, model.ClientType_PERSISTENT)
+	w.seedClient(vfCUIDy, 1, model.ClientType_PERSISTENT)
+	opt := model.PushPullBitNormal
+	opt.SetSubscribeBit().SetCreateBit()
+	mk := func(duid, cuid string) *model.PushPullPack {
+		return &model.PushPullPack{Key: vfKey, DUID: duid, Option: uint32(opt), Type: model.TypeOfDatatype_COUNTER,
+			CheckPoint: &model.CheckPoint{Sseq: 0, Cseq: 1}, Operations: []*model.Operation{vfSnapshotOp(cuid)}}
+	}
+	done := make(chan int, 2)
+	var r1, r2 *model.PushPullPack
+	var e1, e2 error
+	go func() {
+		r1, e1 = w.pushPullCtx(gocontext.Background(), vfCol, vfCUIDx, mk(vfDUIDn, vfCUIDx))
+		done <- 1
+	}()
+	go func() {
+		r2, e2 = w.pushPullCtx(gocontext.Background(), vfCol, vfCUIDy, mk(vfDUIDu, vfCUIDy))
+		done <- 2
+	}()
+	<-done
+	<-done
+	vf.Reach("both-returned")
+	vf.Assert(e1 == nil && e2 == nil && r1 != nil && r2 != nil, "C13/C16 both racing requests are answered")
+	n := 0
+	for _, d := range w.store.Datatypes {
+		if d.CollectionNum == 1 && d.Key == vfKey {
+			n++
+		}
+	}
+	vf.Assert(n == 1, "C13 racing SubscribeOrCreate yields exactly one datatype per collection and key")
+	o1, o2 := model.PushPullPackOption(r1.Option), model.PushPullPackOption(r2.Option)
+	if !o1.HasErrorBit() && !o2.HasErrorBit() {
+		vf.Assert(r1.DUID == r2.DUID, "C13 both clients end up with the same datatype")
+		vf.Assert(o1.HasCreateBit() != o2.HasCreateBit(), "C13 one request created the datatype, the other subscribed to it")
+	}
+	for _, d := range w.store.Datatypes {
+		vf.Assert(w.logInvariant(d.DUID), "C06 log invariant of every stored datatype")
+	}
+}
